@@ -3190,6 +3190,7 @@ class Canon:
         from .genloop import inline_generator_loops, inline_guard_helpers
         b = inline_generator_loops(b, look)       # loops over unknown generator helpers: the helper's loop with the body at its yield
         b = inline_guard_helpers(b, look)         # if not helper(..): raise ..  with a boolean helper that returns from inside a loop
+        b = inline_generator_loops(b, look)       # (.. whose own loop may run over a generator helper)
         look.context = b
         b = lift_walrus(lift_ifexp(b))
         b, look = self._sroa(b, module, look)
